@@ -450,8 +450,9 @@ where
         self,
     ) -> ResultIter<<Vec<ResultItem<'store, AnnotationData>> as IntoIterator>::IntoIter> {
         let mut data: Vec<_> = self.map(|annotation| annotation.data()).flatten().collect();
-        data.sort_unstable();
-        data.dedup();
+        //items of different sets may carry the same handle: compare by (set, handle)
+        data.sort_unstable_by_key(|x| x.fullhandle());
+        data.dedup_by_key(|x| x.fullhandle());
         ResultIter::new_sorted(data.into_iter())
     }
 
@@ -475,16 +476,18 @@ where
             .map(|annotation| annotation.data_as_metadata())
             .flatten()
             .collect();
-        data.sort_unstable();
-        data.dedup();
+        //items of different sets may carry the same handle: compare by (set, handle)
+        data.sort_unstable_by_key(|x| x.fullhandle());
+        data.dedup_by_key(|x| x.fullhandle());
         ResultIter::new_sorted(data.into_iter())
     }
 
     /// Get an iterator over all keys ([`DataKey`]) used by data of this annotation. Shortcut for `.data().keys()`.
     fn keys(self) -> ResultIter<<Vec<ResultItem<'store, DataKey>> as IntoIterator>::IntoIter> {
         let mut keys: Vec<_> = self.map(|annotation| annotation.keys()).flatten().collect();
-        keys.sort_unstable();
-        keys.dedup();
+        //items of different sets may carry the same handle: compare by (set, handle)
+        keys.sort_unstable_by_key(|x| x.fullhandle());
+        keys.dedup_by_key(|x| x.fullhandle());
         ResultIter::new_sorted(keys.into_iter())
     }
 
@@ -496,8 +499,9 @@ where
             .map(|annotation| annotation.keys_as_metadata())
             .flatten()
             .collect();
-        keys.sort_unstable();
-        keys.dedup();
+        //items of different sets may carry the same handle: compare by (set, handle)
+        keys.sort_unstable_by_key(|x| x.fullhandle());
+        keys.dedup_by_key(|x| x.fullhandle());
         ResultIter::new_sorted(keys.into_iter())
     }
 
